@@ -51,9 +51,12 @@ def allLits (l : List Ty) : Prop := ∀ t ∈ l, ∃ v, t = .literal v
 theorem allLits_no_union {l : List Ty} (h : allLits l) : ∀ t ∈ l, isUnionTy t = false := by
   intro t ht; obtain ⟨v, rfl⟩ := h t ht; rfl
 
+/-- the join of the literal group -/
+def litJoin (lits : List Ty) : Ty := match lits with | [t] => t | _ => .union lits
+
 /-- `JoinTypes` of distinct literals: the literal itself, or their union -/
 theorem joinTypes_lits {l : List Ty} (h : allLits l) (hd : pyDistinct l = true) (hne : l ≠ []) :
-    joinTypes l = (match l with | [t] => t | _ => .union l) := by
+    joinTypes l = litJoin l := by
   have hfil : (flattenUnionMembers l).filter (· ≠ .nothing) = l := by
     rw [flatten_no_union (allLits_no_union h), List.filter_eq_self]
     intro a ha
@@ -78,7 +81,7 @@ theorem joinTypes_lits {l : List Ty} (h : allLits l) (hd : pyDistinct l = true) 
       exact mkUnion_distinct (allLits_no_union h) hd
 
 theorem flatten_joinLits {l : List Ty} (h : allLits l) (hne : l ≠ []) :
-    flattenUnionMembers [match l with | [t] => t | _ => .union l] = l := by
+    flattenUnionMembers [litJoin l] = l := by
   cases l with
   | nil => exact absurd rfl hne
   | cons a as =>
@@ -86,7 +89,7 @@ theorem flatten_joinLits {l : List Ty} (h : allLits l) (hne : l ≠ []) :
     | nil =>
       obtain ⟨v, rfl⟩ := h a (by simp)
       rfl
-    | cons b bs => simp [flattenUnionMembers]
+    | cons b bs => simp [litJoin, flattenUnionMembers]
 
 theorem postTys_lits (tps : List String) {l : List Ty} (h : allLits l) : postTys tps l = l := by
   rw [postTys_eq_map]
@@ -97,14 +100,14 @@ theorem postTys_lits (tps : List String) {l : List Ty} (h : allLits l) : postTys
   simp [postTy]
 
 theorem postTy_joinLits (tps : List String) {l : List Ty} (h : allLits l) (hd : pyDistinct l = true) :
-    postTy tps (match l with | [t] => t | _ => .union l) = (match l with | [t] => t | _ => .union l) := by
+    postTy tps (litJoin l) = litJoin l := by
   cases l with
-  | nil => simp [postTy, postTys, mkUnion, flattenUnionMembers, dedupPy]
+  | nil => simp [litJoin, postTy, postTys, mkUnion, flattenUnionMembers, dedupPy]
   | cons a as =>
     cases as with
-    | nil => obtain ⟨v, rfl⟩ := h a (by simp); simp [postTy]
+    | nil => obtain ⟨v, rfl⟩ := h a (by simp); simp [litJoin, postTy]
     | cons b bs =>
-      simp only [postTy, postTys_lits tps h]
+      simp only [litJoin, postTy, postTys_lits tps h]
       exact mkUnion_distinct (allLits_no_union h) hd
 
 /-! ### parsing `Literal[v₁, …]`, `Union[…]`, `Optional[…]` -/
